@@ -377,9 +377,8 @@ bool Xml::Private::parseElement(Element& element)
           return false;
         continue;
       }
-      else
-        this->pos = pos;
     }
+    this->pos = pos;
     String string;
     if(!parseText(string))
       return false;
